@@ -227,10 +227,27 @@ def ensure_coq_built(targets=None):
     """Incremental build (setup.sh does the full one from clean).  With targets (paths of .vo files relative
     to coq/) only those and what they depend on are built, so another property's broken file cannot fail this
     property's check."""
-    regen_coqproject()
-    cmd = ["timeout", "1500", "make", "-j", str(os.cpu_count() or 8)] + list(targets or [])
-    rc, out = run_cmd(cmd, cwd=COQ, timeout=1600)
+    with coq_lock():
+        regen_coqproject()
+        cmd = ["timeout", "1500", "make", "-j", str(os.cpu_count() or 8)] + list(targets or [])
+        rc, out = run_cmd(cmd, cwd=COQ, timeout=1600)
     return rc == 0, out
+
+
+class coq_lock(object):
+    """One writer of compiled Coq files at a time: checks of different properties may run at the same moment, and
+    two makes (or a make and an extraction reading the .vo files) in one tree give inconsistent-assumption errors."""
+    def __enter__(self):
+        import fcntl
+        os.makedirs(BUILD, exist_ok=True)
+        self.f = open(os.path.join(BUILD, "coq.lock"), "w")
+        fcntl.flock(self.f, fcntl.LOCK_EX)
+        return self
+
+    def __exit__(self, *a):
+        import fcntl
+        fcntl.flock(self.f, fcntl.LOCK_UN)
+        self.f.close()
 
 
 def ensure_model_built(pid):
@@ -239,12 +256,27 @@ def ensure_model_built(pid):
     exe = os.path.join(BUILD, low, "run")
     srcs = coq_sources() + [os.path.join(ROOT, "ocaml", "prelude.ml"),
                             os.path.join(ROOT, "ocaml", "drv_%s.ml" % low)]
-    if os.path.exists(exe):
-        t = os.path.getmtime(exe)
-        if all(os.path.getmtime(s) <= t for s in srcs if os.path.exists(s)):
-            return True, ""
-    rc, out = run_cmd([os.path.join(ROOT, "build_model.sh"), low], cwd=ROOT)
-    return rc == 0, out
+    def fresh():
+        if os.path.exists(exe):
+            t = os.path.getmtime(exe)
+            return all(os.path.getmtime(s) <= t for s in srcs if os.path.exists(s))
+        return False
+    if fresh():
+        return True, ""
+    # several checks share one model (C01, C02, C04, C17 use build/c01) and may run at the same time: one
+    # builder at a time per model; whoever waited looks again before building
+    import fcntl
+    os.makedirs(BUILD, exist_ok=True)
+    with open(os.path.join(BUILD, low + ".lock"), "w") as lk:
+        fcntl.flock(lk, fcntl.LOCK_EX)
+        try:
+            if fresh():
+                return True, ""
+            with coq_lock():
+                rc, out = run_cmd([os.path.join(ROOT, "build_model.sh"), low], cwd=ROOT)
+            return rc == 0, out
+        finally:
+            fcntl.flock(lk, fcntl.LOCK_UN)
 
 
 class ModelError(Exception):
